@@ -38,8 +38,8 @@ var (
 	p64      = new(big.Int).Lsh(big.NewInt(1), 64)
 	p255m1   = new(big.Int).Sub(new(big.Int).Lsh(big.NewInt(1), 255), big.NewInt(1))
 	p256m1   = new(big.Int).Sub(new(big.Int).Lsh(big.NewInt(1), 256), big.NewInt(1))
-	unknownH = types.HexToHashPanic("c09c09c09c09c09c09c09c09c09c09c09c09c09c09c09c09c09c09c09c09c09c0")
-	unknownZ = types.ParseZTSPanic("zts1qanamzukd2v7al7h3zf3rh")
+	unknownH = types.HexToHashPanic("c09c09c09c09c09c09c09c09c09c09c09c09c09c09c09c09c09c09c09c09c09c")
+	unknownZ = types.NewZenonTokenStandard([]byte("c09 unknown token"))
 	genesisT = int64(g.EmbeddedGenesis.GenesisTimestampSec)
 )
 
